@@ -282,11 +282,48 @@ pub fn field_sweep_base(base: &[u8], visit: &mut impl FnMut(Vec<u8>)) {
 // A decoder that makes one field's value depend on another's ("status 15 of a SART", "data dropped
 // when both coordinates are unavailable") shows here without anyone having to guess the pair.
 
+/// The largest value the specification calls *legal* for a field with a calendar, clock or compass range
+/// (raw encoding, two's complement for coordinates) - where a decoder that "validates" or special-cases
+/// dates, times and positions has its boundaries.
+pub fn legal_max(f: &FieldExp) -> Option<u64> {
+    let leaf = f.path.rsplit('.').next().unwrap_or(&f.path);
+    let v = match (leaf, f.width) {
+        ("month", 4) | ("eta_month_utc", 4) => 12,
+        ("day", 5) | ("eta_day_utc", 5) => 31,
+        ("hour", 5) | ("eta_hour_utc", 5) | ("utc_hour", 5) => 23,
+        ("minute", 6) | ("eta_minute_utc", 6) | ("utc_minute", 6) => 59,
+        ("second", 6) | ("utc_second", 6) | ("timestamp", 6) => 59,
+        ("year", 14) => 9999,
+        ("true_heading", 9) => 359,
+        ("course_over_ground", 12) => 3599,
+        ("course_over_ground", 9) => 359,
+        ("speed_over_ground", 10) => 1022,
+        ("speed_over_ground", 6) => 62,
+        ("longitude", 28) => 108_000_000,
+        ("latitude", 27) => 54_000_000,
+        ("longitude", 18) => 108_000,
+        ("latitude", 17) => 54_000,
+        _ => return None,
+    };
+    Some(v)
+}
+
 pub fn specials(f: &FieldExp) -> Vec<u64> {
     let m = mask(f.width);
     let mut v: Vec<u64> = if f.width <= 3 { (0..=m).collect() } else { vec![0, 1, m, m - 1] };
     if let Hint::Sentinels(s) = &f.hint {
         v.extend(s.iter().take(8).map(|x| x & m));
+        if f.path.ends_with("longitude") || f.path.ends_with("latitude") {
+            // the mirror image of the field's own code (-181 / -91 degrees): out of range, not a code
+            v.push((!(s[0] & m)).wrapping_add(1) & m);
+        }
+    }
+    if let Some(l) = legal_max(f) {
+        v.push(l & m);
+        v.push((l + 1) & m);
+        if f.path.ends_with("longitude") || f.path.ends_with("latitude") {
+            v.push((!l).wrapping_add(1) & m);
+        }
     }
     if let Hint::Text(_) = f.hint {
         v = vec![0, m];
@@ -296,7 +333,7 @@ pub fn specials(f: &FieldExp) -> Vec<u64> {
     v
 }
 
-/// `base`: 0 = the other bits random, 1 = all zero, 2 = "everything unavailable" (every field that has a
+/// `base`: 0 = the other bits random, 1 = all zero, 3 = every ranged field at its legal maximum, 2 = "everything unavailable" (every field that has a
 /// 'not available' code carries it, the rest zero) - conjunctions of more than two special values are
 /// only reachable from a background that already has the others in place
 pub fn pairwise_specials(t: u8, len: usize, part: Option<u64>, reps: usize, base: u8, mix: &mut crate::util::Mix, mut visit: impl FnMut(Vec<u8>)) {
@@ -305,6 +342,19 @@ pub fn pairwise_specials(t: u8, len: usize, part: Option<u64>, reps: usize, base
         set_bits(&mut b, 0, 6, t as u64);
         if let Some(p) = part {
             set_bits(&mut b, 38, 2, p);
+        }
+        if base == 3 {
+            // "the last moment of the year, at the edge of the chart": every field with a calendar, clock or
+            // compass range at its largest legal value, the rest zero
+            for _ in 0..2 {
+                if let RefMsg::Msg(d) = refdecode(&b) {
+                    for f in d.fields.iter() {
+                        if let Some(l) = legal_max(f) {
+                            set_bits(&mut b, f.start, f.width, l & mask(f.width));
+                        }
+                    }
+                }
+            }
         }
         if base == 2 {
             if let RefMsg::Msg(d) = refdecode(&b) {
